@@ -219,7 +219,34 @@ def lower_iter_calls(body, closure_of):
 
 
 # --------------------------------------------------------------------------------------------------------- forwarding
+_STD_CTORS = {"core::option::Option::Some": ("core::option::Option", "Option", "Some", 1),
+              "core::result::Result::Ok": ("core::result::Result", "Result", "Ok", 0),
+              "core::result::Result::Err": ("core::result::Result", "Result", "Err", 1)}
+
+
+def lower_ctor_calls(body):
+    """`x.map(Some)` leaves, after INLINE, a call of the tuple-variant constructor `Option::Some` as a function: it is the
+    aggregate it constructs (same for `Ok` / `Err`)"""
+    n = 0
+    for bb in body["blocks"]:
+        t = bb["t"]
+        if t["k"] != "call":
+            continue
+        fd = t.get("fdef") or ((t.get("f") or {}).get("k") or {}).get("fn") or {}
+        if not fd.get("ctor") or fd.get("path") not in _STD_CTORS or len(t.get("args", [])) != 1 or t.get("t") is None:
+            continue
+        adt, nm, var, idx = _STD_CTORS[fd["path"]]
+        ty = body["locals"][t["dest"]["l"]]["ty"] if not t["dest"].get("p") else None
+        bb["s"].append({"k": "assign", "lhs": t["dest"], "span": t.get("span", ""),
+                        "rv": {"k": "aggr", "ak": "adt", "adt": adt, "adt_name": nm, "adt_crate": "core", "variant": var, "variant_idx": idx,
+                               "fields": ["0"], "ty": ty, "ops": [t["args"][0]]}})
+        bb["t"] = {"k": "goto", "t": t["t"], "span": t.get("span", "")}
+        n += 1
+    return n
+
+
 def forward_local_refs(body):
+    lower_ctor_calls(body)
     """rewrite (*r).rest -> PLACE.rest for reference locals r that can only denote PLACE; returns the number of places rewritten"""
     blocks = body["blocks"]
     argc = body["argc"]
